@@ -254,7 +254,7 @@ class Explorer:
         out = {}
         for name, var in self.inputs.items():
             v = m.eval(var, model_completion=True)
-            if z3.is_int_value(v):
+            if z3.is_int_value(v) or z3.is_bv_value(v):
                 out[name] = v.as_long()
             elif z3.is_true(v):
                 out[name] = True
